@@ -35,10 +35,15 @@ def _run_rules(prop, root):
 
 
 def _one_mutant(args):
-    prop, src_root, base, kind, spec = args
+    prop, src_root, base, kind, spec = args[:5]
+    pre = args[5] if len(args) > 5 else None      # a behaviour-preserving refactoring applied first (cross matrix)
     d = tempfile.mkdtemp(prefix="m_", dir=base)
     try:
         _copy_pkg(src_root, d)
+        if pre is not None:
+            r = subprocess.run(["git", "apply", "--whitespace=nowarn", "-p1", pre], cwd=d, capture_output=True, text=True)
+            if r.returncode != 0:
+                return ("skipped", None, str(spec)[:40], "refactoring does not apply to the tree under analysis")
         if kind == "text":
             _, rule, fname, old, new, desc = spec
             p = os.path.join(d, "graphtage", fname)
@@ -57,7 +62,17 @@ def _one_mutant(args):
         else:
             sid, patch = spec
             rule, desc, label = None, sid, f"seeded/{sid}"
-            r = subprocess.run(["git", "apply", "--whitespace=nowarn", "-p1", patch], cwd=d, capture_output=True, text=True)
+            if pre is None:
+                r = subprocess.run(["git", "apply", "--whitespace=nowarn", "-p1", patch], cwd=d, capture_output=True, text=True)
+            else:
+                r = subprocess.run(["patch", "-p1", "-F2", "-s", "--no-backup-if-mismatch", "-i", patch], cwd=d, capture_output=True, text=True)
+                if r.returncode == 0:
+                    import re as _re
+                    for fn_ in _re.findall(r"^\+\+\+ b/(\S+)", open(patch).read(), _re.M):
+                        try:
+                            compile(open(os.path.join(d, fn_), encoding="utf-8").read(), fn_, "exec")
+                        except SyntaxError:
+                            return ("skipped", rule, desc, "seed and refactoring conflict")
             if r.returncode != 0:
                 return ("skipped", rule, desc, "patch does not apply to the tree under analysis")
         viol, inc, floors = _run_rules(prop, d)
@@ -257,6 +272,41 @@ def extend(ctx):
                 ctx.inconclusive("SELFTEST", "-", "self-validation", None, f"{job[3]}:{desc}"[:80],
                                  f"seeded {'mutant' if job[3] == 'text' else 'change'} `{desc}` (expected rule {rule}) was not "
                                  f"reported: {detail} - the checker is broken, not graphtage")
+        # cross matrix: the same mutants and kept changes, applied on top of every agent refactoring that touches their file -
+        # a rule generalised to stay silent on a refactoring must still see the breaking change in the refactored shape
+        import re as _re
+        pdir_ = os.path.join(VERIF, "refactor_patches")
+        xjobs = []
+        if os.path.isdir(pdir_):
+            for fn in sorted(os.listdir(pdir_)):
+                if not (fn.endswith(".diff") and "__" in fn and prop in fn.split("__", 1)[0].split(",")):
+                    continue
+                rp = os.path.join(pdir_, fn)
+                rfiles = set(_re.findall(r"^\+\+\+ b/(\S+)", open(rp).read(), _re.M))
+                for mu in mutants.for_property(prop):
+                    if "graphtage/" + mu[2] in rfiles:
+                        xjobs.append((prop, src_root, base, "text", mu, rp))
+                for sd_ in seeded_for(prop):
+                    if set(_re.findall(r"^\+\+\+ b/(\S+)", open(sd_[1]).read(), _re.M)) & rfiles:
+                        xjobs.append((prop, src_root, base, "patch", sd_, rp))
+        if xjobs:
+            with cf.ProcessPoolExecutor(max_workers=min(16, len(xjobs))) as ex:
+                xres = list(ex.map(_one_mutant, xjobs, chunksize=2))
+            xc = sum(1 for r_ in xres if r_[0].startswith("caught"))
+            xs = sum(1 for r_ in xres if r_[0] == "skipped")
+            summary["cross"] = {"combinations": len(xres), "caught": xc, "skipped_conflict": xs,
+                                "missed": [{"what": r_[2], "after": os.path.basename(j_[5]), "detail": r_[3]} for j_, r_ in zip(xjobs, xres)
+                                           if not r_[0].startswith("caught") and r_[0] != "skipped"]}
+            for j_, r_ in zip(xjobs, xres):
+                if not r_[0].startswith("caught") and r_[0] != "skipped":
+                    ctx.inconclusive("SELFTEST", "-", "self-validation", None, f"cross:{r_[2]}@{os.path.basename(j_[5])}"[:80],
+                                     f"`{r_[2]}` applied on top of the refactoring {os.path.basename(j_[5])} was not reported: {r_[3]} - "
+                                     f"the rule went blind on the refactored shape")
+            ctx.rule("CROSS", f"mutants and kept changes on top of agent refactorings: {xc} caught, {xs} conflicting combinations skipped, "
+                              f"{len(xres) - xc - xs} missed")
+            if xc:
+                ctx.proved("CROSS", "-", "self-validation", None, f"{prop} cross matrix",
+                           f"{xc} of {len(xres) - xs} applicable (breaking change after behaviour-preserving refactoring) combinations are reported")
         # behaviour-preserving refactors must not raise an alarm
         from . import refactors
         rjobs = [(prop, src_root, base, "REFORMAT"), (prop, src_root, base, "ALPHA")] + [(prop, src_root, base, r) for r in refactors.REFACTORS if prop in r[3]]
